@@ -284,10 +284,11 @@ func (s *Server) run() {
 					if p.Closed() {
 						return
 					}
-					p.Send(refwire.Msg{Kind: "unchoke"})
+					// the flag first: a request that arrives after the unchoke message was sent must be served
 					s.mu.Lock()
 					s.Unchoked = true
 					s.mu.Unlock()
+					p.Send(refwire.Msg{Kind: "unchoke"})
 				}()
 			}
 		}
